@@ -18,6 +18,9 @@ pub(crate) struct PubSocket {
   core: Arc<SocketCore>,
   distributor: Distributor,
   pipe_read_to_endpoint_uri: RwLock<HashMap<usize, String>>,
+  /// Frames of a message that is being published frame by frame (send() with MORE): they are held
+  /// back until its last frame arrives, so that each subscriber gets the whole message or none of it.
+  pending_send_parts: parking_lot::Mutex<FrameBatch>,
 }
 
 impl PubSocket {
@@ -26,6 +29,7 @@ impl PubSocket {
       core,
       distributor: Distributor::new(),
       pipe_read_to_endpoint_uri: RwLock::new(HashMap::new()),
+      pending_send_parts: parking_lot::Mutex::new(FrameBatch::new()),
     }
   }
 }
@@ -66,6 +70,30 @@ impl ISocket for PubSocket {
     if !self.core.is_running() {
       return Err(ZmqError::InvalidState("Socket is closing".into()));
     }
+    // A message published frame by frame goes out as a whole once its last frame arrives: a frame
+    // dropped on its own for a slow subscriber would leave that subscriber with a truncated message.
+    let single_or_whole: Result<Msg, FrameBatch> = {
+      let mut pending = self.pending_send_parts.lock();
+      if !msg.is_more() && pending.is_empty() {
+        Ok(msg)
+      } else {
+        if pending.len() >= FrameBatch::MAX_FRAMES {
+          // The message cannot be completed within the frame limit: refuse it and start afresh.
+          *pending = FrameBatch::new();
+          return Err(ZmqError::ResourceLimitReached);
+        }
+        let more_follows = msg.is_more();
+        pending.push(msg);
+        if more_follows {
+          return Ok(());
+        }
+        Err(std::mem::take(&mut *pending))
+      }
+    };
+    let msg = match single_or_whole {
+      Ok(single_frame_message) => single_frame_message,
+      Err(whole_message) => return self.send_multipart(whole_message).await,
+    };
     let payload_preview_str = msg
       .data()
       .map(|d| String::from_utf8_lossy(&d.iter().take(20).copied().collect::<Vec<_>>()).into_owned())
